@@ -625,6 +625,17 @@ func (x *exec) frameExclusions(u *Unit) []frameExcl {
 				ex = append(ex, frameExcl{prefix: memKeyPrefix(sl.Elem()), ref: v.L[slArr], whole: true})
 				return
 			}
+			if id != nil && id.Name == "MapOf" {
+				v := pre.eval(m.Args[0])
+				mt, isMap := types.Unalias(v.T).Underlying().(*types.Map)
+				if !isMap {
+					specErr("modifies: MapOf() of non-map")
+				}
+				hk, _, _, vp := x.mapKeys(mt)
+				ex = append(ex, frameExcl{prefix: hk, ref: v.one(), whole: true})
+				ex = append(ex, frameExcl{prefix: vp, ref: v.one(), whole: true})
+				return
+			}
 			if id != nil && id.Name == "deref" {
 				v := pre.eval(m.Args[0])
 				p := x.ptrOf(v)
